@@ -136,6 +136,17 @@ Proof.
   apply Permutation_map, sort_ev_perm.
 Qed.
 
+(* the boolean test applied to observed completion orders implies the hypothesis of the theorems *)
+Lemma is_perm_of_seq_sound l n : is_perm_of_seq l n = true -> Permutation l (seq 0 n).
+Proof.
+  unfold is_perm_of_seq. rewrite andb_true_iff, Nat.eqb_eq, forallb_forall. intros [L H].
+  apply Permutation_sym, NoDup_Permutation_bis.
+  - apply seq_NoDup.
+  - rewrite seq_length. lia.
+  - intros i Hi. specialize (H i Hi). apply existsb_exists in H as [j [Hj E]].
+    apply Nat.eqb_eq in E. subst. exact Hj.
+Qed.
+
 (* ------------------------------------------------------------------------------------------ *)
 (* save / restore                                                                             *)
 (* ------------------------------------------------------------------------------------------ *)
